@@ -48,7 +48,7 @@ type Merger struct {
 // selectedCase returns the case of ch that S holds data for (first in
 // CaseIdents order), or nil.
 func SelectedCase(ch *meta.Choice, s *Tree) *meta.ChoiceCase {
-	for _, id := range ch.CaseIdents() {
+	for _, id := range CaseIds(ch) {
 		c := ch.Cases()[id]
 		if HasAny(c.DataDefinitions(), s) {
 			return c
@@ -93,7 +93,7 @@ func ClearOtherCases(m meta.Meta, t *Tree) {
 			return
 		}
 		ch := cs.Parent().(*meta.Choice)
-		for _, id := range ch.CaseIdents() {
+		for _, id := range CaseIds(ch) {
 			other := ch.Cases()[id]
 			if other != cs {
 				removeAll(other.DataDefinitions(), t)
